@@ -7,7 +7,7 @@
    page size and wherever new events land between the count request and the page requests.  The exit test of the page
    loop, the handling of an unconvertible event and the nil tests of GetTokenInfo come from gen.Extracted. *)
 From Coq Require Import List ZArith Bool Lia.
-From WH Require Import gen.Extracted model.AlphWatcher proofs.AlphWatcherProofs.
+From WH Require Import gen.Extracted model.AlphWatcher proofs.AlphWatcherBase proofs.AlphWatcherProofs.
 Import ListNotations.
 Open Scope Z_scope.
 
